@@ -19,7 +19,7 @@ LEVEL_NOTE = ("Trusted: Coq kernel; hand-written marking model validated by corr
 RULE = ("random reduced-form indexed grammars (1-4 nonterminals, 1-2 indices, <= 10 rules, duplicated rules and several consumption rules per (index, variable) "
         "frequent) x permutations of the rule list (all when <= 4 rules, 6 sampled otherwise) x optim 0..8 x {is_empty, bool, repeated call, remove_useless_rules}")
 EXPLANATION = "Verdicts compared with the saturation model of the marking rules; order independence by permutations and heuristics."
-TRUSTED = ["Coq 8.16.1 kernel", "hand-written model coq/Model/Ig.v validated by correspondence", "Python harness"]
+TRUSTED = ["Coq 8.16.1 kernel", "hand-written models coq/Model/Ig.v, IgUseless.v validated by correspondence (remove_useless_rules rule by rule)", "untrusted Python marking oracle + reference product for the intersection clause (validated against the proved Coq model on every plain case of the run)", "Python harness"]
 ASSUMPTIONS = ["nonterminals, indices and terminals are strings (interned to N)", "start variable is 'S' (the ordering heuristics hard-code it)"]
 TECHNIQUE = "Rocq/Coq model (least fixed point of the marking rules) + differential correspondence over rule orders and heuristics"
 
